@@ -143,8 +143,10 @@ def _gen_family(rng):
 def _gen_store(rng):
     return {"how": rng.choice(["file", "file", "stream", "to_dimacs",
                                "stdout"]),
+            # (the name of an open file is a number for os.fdopen, pipes
+            # and tempfile.TemporaryFile, None for a SpooledTemporaryFile)
             "name": rng.choice(["f.cnf", "f.dimacs", "f", "out.txt", "f.tex",
-                                "f.opb"]),
+                                "f.opb", 3, None]),
             "header": rng.random() < 0.6, "varnames": rng.random() < 0.4,
             "write_chunk": rng.choice([None, None, 1, 3, 7])}
 
@@ -291,7 +293,7 @@ def _store(F, st, fs, ctx):
     how = st["how"]
     plan = {"write_chunk": st["write_chunk"]} if st["write_chunk"] else {}
     if how == "file":
-        name = st["name"]
+        name = st["name"] if isinstance(st["name"], str) else "f.cnf"
         fs.put(name, b"", plan=plan)
         # an explicit format request must override the extension
         fmt = "dimacs" if name.endswith((".tex", ".opb")) else None
@@ -299,7 +301,8 @@ def _store(F, st, fs, ctx):
         data = fs.data(name)
     elif how == "stream":
         w, raw = text_writer(name=st["name"], plan=plan, on_fire=ctx.fault)
-        fmt = "dimacs" if st["name"].endswith((".tex", ".opb")) else None
+        fmt = "dimacs" if str(st["name"]).endswith((".tex", ".opb")) \
+            else None
         r = call(F.to_file, w, fileformat=fmt, **kw)
         if r[0] == "ok":
             w.flush()
